@@ -70,6 +70,24 @@ pub fn mixed_string(r: &mut Rng, min: usize, max: usize, hostility: usize) -> St
     s
 }
 
+/// A string whose UTF-8 length sits at the 23-byte inline/heap boundary of the small-string
+/// type (22..=25 bytes), optionally with a multi-byte character straddling it.
+pub fn boundary_string(r: &mut Rng, no_slash: bool) -> String {
+    let target = r.range(22, 25);
+    let mut s = String::new();
+    let multi = *r.pick(&['é', 'Æ', '中', '😀', 'ǅ']);
+    let at = if r.coin() { r.range(18, 22) } else { usize::MAX };
+    while s.len() < target {
+        if s.len() >= at && s.len() + multi.len_utf8() <= target + 1 && !s.contains(multi) {
+            s.push(multi);
+        } else {
+            let c = if r.chance(1, 8) { *r.pick(SEPARATORS) } else { *r.pick(ALNUM) as char };
+            s.push(if no_slash && c == '/' { 'a' } else { c });
+        }
+    }
+    s
+}
+
 /// Length distribution biased to short strings, with an occasional long tail.
 pub fn len_short(r: &mut Rng) -> (usize, usize) {
     match r.below(100) {
